@@ -92,3 +92,106 @@ Example ex_flat_roundtrip :
                       [PyV (VInt (-3))]; [] ]];
          [IVal (PyV (VBytes [55;55;55;55]%N))] ].
 Proof. vm_compute. reflexivity. Qed.
+
+(* ================================ nested text ==================================================== *)
+From PBK Require Import WireProofs NestedProofs TextFmtNested TextFmtNestedTree TextFmtNestedTop.
+
+Definition xe (id : N) : desc := DElem (mkElem id [] 0 0 8).
+(* 204008 031021 012001 204000 | 101000 031001 012001 | 222000 236000 101002 031031 | 033007 033007 | 001015 *)
+Definition exn_T : descs :=
+  DCons (DOper 204008) (DCons (xe 31021) (DCons (xe 12001) (DCons (DOper 204000)
+  (DCons (DDelayed 101000 (xe 31001) (DCons (xe 12001) DNil))
+  (DCons (DOper 222000) (DCons (DOper 236000) (DCons (DFixed 101002 (DCons (xe 31031) DNil))
+  (DCons (xe 33007) (DCons (xe 33007) (DCons (xe 1015) DNil)))))))))).
+Definition exn_vals : list value :=
+  [VInt 1; VInt 3; VInt 280; VInt 2; VInt 10; VInt 11; VInt 0; VInt 0; VInt 0; VInt 0; VInt 70; VNone;
+   VBytes [97;98;32;99;100]%N].
+Definition exn_links : list (N * N) := [(10, 2); (11, 4)]%N.
+
+Definition d6 (a b c d e f : N) : str := [a; b; c; d; e; f].
+Definition exn_dstr (i : N) : str :=
+  nth (N.to_nat i)
+    [d6 48 51 49 48 50 49; d6 65 49 50 48 48 49; d6 48 49 50 48 48 49; d6 48 51 49 48 48 49;
+     d6 48 49 50 48 48 49; d6 48 49 50 48 48 49; d6 50 50 50 48 48 48; d6 50 51 54 48 48 48;
+     d6 48 51 49 48 51 49; d6 48 51 49 48 51 49; d6 48 51 51 48 48 55; d6 48 51 51 48 48 55;
+     d6 48 48 49 48 49 53]%N [].
+(* "AIR TEMP" for every index: a description with a blank *)
+Definition exn_descr (i : N) : str := [65;73;82;32;84;69;77;80]%N.
+(* str(node) of the no-value nodes: the six digits; a sequence would add its name *)
+Definition exn_nvstr (id : N) : str :=
+  if (id <? 100000)%N then [48%N] ++ dec id ++ [32; 84; 69; 77; 80]%N       (* 0xxyyy TEMP: an element *)
+  else dec id.
+
+Definition exn_sub (nodes : wnodes) (s : wst) : nsubset :=
+  mkNsubset nodes (x_attrs s) exn_vals exn_dstr exn_descr exn_nvstr.
+
+Definition exn_msg (nodes : wnodes) (s : wst) : message (list nsubset) :=
+  mkMessage [75;69;89]%N
+    [ mkSection 1 [PVal nm_edition (PyV (VInt 4))];
+      mkSection 4 [PVal nm_edition (PyV (VInt 20)); PTemplate [exn_sub nodes s; exn_sub nodes s]];
+      mkSection 5 [PVal nm_stop (PyV (VBytes [55;55;55;55]%N))] ].
+
+Definition exn_univ : list pyv :=
+  [PyV (VInt 4); PyV (VInt 20); PyV (VBytes [55;55;55;55]%N)] ++ map PyV exn_vals.
+
+Definition exn_wired := wire 13 exn_vals exn_links exn_T.
+
+Example exn_wire_ok : exists nodes s, exn_wired = Ok (nodes, s) /\ x_next s = 13%N /\
+  x_attrs s = [(1, 0, false); (2, 1, true); (2, 10, false); (4, 11, false)]%N.
+Proof. eexists; eexists. split; [vm_compute; reflexivity|]. split; reflexivity. Qed.
+
+(* an associated field (A12001 before 012001), a quality value linked by the bitmap to 012001 (index 2)
+   and to a member of the delayed replication (index 4), a delayed replication with two repetitions,
+   a fixed one; two subsets *)
+Example exn_ok : forall nodes s, exn_wired = Ok (nodes, s) ->
+  nested_message_ok toy_repr (toy_leval exn_univ) (exn_msg nodes s).
+Proof.
+  intros nodes s E. vm_compute in E. injection E as <- <-.
+  split; [vm_compute; reflexivity|]. split; [vm_compute; reflexivity|].
+  cbv [exn_msg m_sections s_params nested_param_ok nested_td_ok].
+  assert (S1 : nsubset_ok toy_repr (toy_leval exn_univ)
+                 (exn_sub (WCons (WNoValue 204008) (WCons (WValue 0) (WCons (WValue 2) (WCons (WNoValue 204000)
+                   (WCons (WDelayed 101000 1 3 (WCons (WValue 4) (WCons (WValue 5) WNil)))
+                   (WCons (WValue 6) (WCons (WValue 7) (WCons (WFixed 101002 1 2 (WCons (WValue 8) (WCons (WValue 9) WNil)))
+                   (WCons (WValue 10) (WCons (WValue 11) (WCons (WValue 12) WNil)))))))))))
+                   (mkWst 13 [] 0 true false false (Some 0%N) None None
+                      [(1, 0, false); (2, 1, true); (2, 10, false); (4, 11, false)]%N
+                      [12; 11; 10; 9; 8; 7; 6; 5; 4; 3; 2; 0]%N false))).
+  { split.
+    - split; [|split; vm_compute; reflexivity].
+      apply idx_ok_by_list. unfold idx_ok. vm_compute span. ex_crush.
+    - split; [vm_compute; reflexivity|]. split; [vm_compute; reflexivity|]. split; [|vm_compute; reflexivity].
+      cbn. repeat split; reflexivity. }
+  ex_crush; try exact S1.
+Qed.
+
+Example exn_roundtrip : forall nodes s, exn_wired = Ok (nodes, s) ->
+  nested_text_to_flat_json (toy_leval exn_univ) (render_nested_text toy_repr 3 (exn_msg nodes s))
+  = Ok [ [IVal (PyV (VInt 4))];
+         [IVal (PyV (VInt 20)); ITemplate [map PyV exn_vals; map PyV exn_vals]];
+         [IVal (PyV (VBytes [55;55;55;55]%N))] ].
+Proof. intros nodes s E. vm_compute in E. injection E as <- <-. vm_compute. reflexivity. Qed.
+
+(* D21: an element skipped by 221YYY is printed '012001 TEMP' without a value; the parser takes
+   'TEMP' for a value.  Every other side condition holds. *)
+Definition exd_T : descs := DCons (DOper 221002) (DCons (xe 12001) (DCons (xe 1001) DNil)).
+Definition exd_vals : list value := [VInt 7].
+Definition exd_sub (nodes : wnodes) (s : wst) : nsubset :=
+  mkNsubset nodes (x_attrs s) exd_vals (fun _ => d6 48 48 49 48 48 49) exn_descr exn_nvstr.
+Definition exd_msg (nodes : wnodes) (s : wst) : message (list nsubset) :=
+  mkMessage [75;69;89]%N
+    [ mkSection 4 [PTemplate [exd_sub nodes s]]; mkSection 5 [PVal nm_stop (PyV (VInt 7))] ].
+
+Example exd_refuted : exists nodes s,
+  wire 1 exd_vals [] exd_T = Ok (nodes, s) /\ x_next s = 1%N /\
+  nodes = WCons (WNoValue 221002) (WCons (WNoValue 12001) (WCons (WValue 0) WNil)) /\
+  nsubset_tree_ok (exd_sub nodes s) /\
+  (forall i, (i < 1)%N -> idx_ok toy_repr (toy_leval [PyV (VInt 7)]) (exd_sub nodes s) i) /\
+  nv_ok exn_nvstr 221002 = true /\ nv_ok exn_nvstr 12001 = false /\
+  nested_text_to_flat_json (toy_leval [PyV (VInt 7)]) (render_nested_text toy_repr 3 (exd_msg nodes s)) = Err EValue.
+Proof.
+  eexists; eexists. split; [vm_compute; reflexivity|]. split; [reflexivity|]. split; [reflexivity|].
+  split; [|split; [|split; [|split]]]; try (vm_compute; reflexivity).
+  - repeat split; vm_compute; reflexivity.
+  - apply idx_ok_by_list. unfold idx_ok. vm_compute span. ex_crush.
+Qed.
